@@ -127,7 +127,7 @@ def alpha_row(row: dict) -> dict:
         "k": "q", "ct": "", "name": "", "lname": "", "hasname": False, "nameok": True, "type": "",
         "count": "none", "tl": False, "lh": False, "media": False, "list": "", "listkind": "",
         "other": False, "filt": False, "hascalc": False, "dyn": "none", "trig": False, "warns": [],
-        "frag": True,
+        "frag": True, "cattrs": [], "tlapp": "field-list",
     }
     row = dict(row)
     warns = []
@@ -162,6 +162,7 @@ def alpha_row(row: dict) -> dict:
     r["hascalc"] = bool(bind.get("calculate"))
     r["trig"] = bool(row.get("trigger"))
     r["dyn"] = classify_default(row.get("default"), qtype)
+    r["cattrs"] = control_attrs(row, qtype, control)
     if qtype == "audit":
         r.update(k="audit", warns=warns)
         return r
@@ -189,6 +190,9 @@ def alpha_row(row: dict) -> dict:
             r["count"] = "ref" if RE_ONLY_REF.match(cnt) else "expr"
         if isinstance(app, str) and "table-list" in app.split():
             r["tl"] = True
+            r["tlapp"] = " ".join(["field-list"] + [w for w in app.split() if w != "table-list"])
+        if "intent" in row:
+            r["cattrs"] = [a for a in r["cattrs"] if a[0] != "intent"] + [["intent", str(row["intent"]), "${" not in str(row["intent"])]]
         # In a table-list group the label/hint moves to a generated note: the XForm group itself has neither.
         r["lhkeys"] = ("label" in row) or ("hint" in row)
         if (
@@ -201,7 +205,7 @@ def alpha_row(row: dict) -> dict:
             if r["dyn"] == "either":
                 r["frag"] = False
             warns.append("nolabel_ctrl")
-        if "intent" in row or row.get("flat"):
+        if row.get("flat"):
             r["frag"] = False
         r["warns"] = warns
         return r
@@ -215,6 +219,7 @@ def alpha_row(row: dict) -> dict:
         r["filt"] = bool(row.get("choice_filter"))
         if stype == "select one external":
             r["listkind"] = "external"
+            r["cattrs"] = r["cattrs"] + [["query", "", False]]
             if "choice_filter" not in row:
                 warns.append("ext_nofilter")
         elif ext in EXT:
@@ -239,10 +244,33 @@ def alpha_row(row: dict) -> dict:
     return r
 
 
+def control_attrs(row, qtype, control):
+    """Attributes the row's cells dictate for its body control: [name, value, literal?]."""
+    out = {}
+    for k, v in control.items():
+        if k in ("bodyless", "tag"):
+            continue
+        out[str(k)] = str(v)
+    p = parse_params(str(row.get("parameters", "") or "")) or {}
+    if qtype == "text" and "rows" in p:
+        out["rows"] = p["rows"].lower()
+    if qtype == "geopoint":
+        if "capture-accuracy" in p:
+            out["accuracyThreshold"] = p["capture-accuracy"].lower()
+        if "warning-accuracy" in p:
+            out["unacceptableAccuracyThreshold"] = p["warning-accuracy"].lower()
+    if qtype == "photo" and "app" in p and control.get("appearance") in (None, "annotate"):
+        out["intent"] = p["app"].lower()
+    if qtype == "range":
+        for k, d in (("start", "1"), ("end", "10"), ("step", "1")):
+            out[k] = p.get(k, d).lower()
+    return [[k, v, "${" not in v] for k, v in out.items()]
+
+
 def tla_row(r: dict) -> dict:
     """Only the fields the TLA+ record has (uniform record shape)."""
     keys = ("k", "ct", "name", "lname", "hasname", "nameok", "type", "count", "tl", "lh", "media", "list",
-            "listkind", "other", "filt", "hascalc", "dyn", "trig", "warns")
+            "listkind", "other", "filt", "hascalc", "dyn", "trig", "warns", "cattrs", "tlapp")
     out = {k: r[k] for k in keys}
     if r["k"] == "begin" and r["tl"]:
         out["lh"] = bool(r.get("lhkeys"))
